@@ -34,6 +34,9 @@ EXPLANATION += (' R-LIN (linear-relations abstract interpretation of channel.c, 
 
 
 
+EXPLANATION += (' R-INDUCT (channelinduct.py): an inductive invariant with the lap counters as integers of the linear domain - every hold cursor is in the writer\'s lap at or below head, or one lap behind with the pending write [head, mapped) below it; a mapped reader\'s target cursor bounds committed, unconsumed bytes starting at its hold - is assumed at the entry of each of the six channel operations (one abstract entry state per disjunct, a symbolic reader J, a second symbolic reader K for frames, reader_min replaced by its specification, the wait re-establishing the invariant, the wrap-everybody loop summarised from its back edge) and proved at every return, together with a frame condition per operation (accept_writes changes only the flag, abort only mapped, write_unmap only head, reader operations only the calling reader\'s slot and object).')
+
+
 def run(ctx, res):
     prog = ctx.program()
     la = LockAnalysis(prog)
@@ -54,6 +57,10 @@ def run(ctx, res):
     from ..channelarith import rule_linear
     res.guard(rule_linear, prog, res)
     res.require_min("R-LIN", 15)
+    # the inductive cursor invariant, laps included (channelinduct.py)
+    from ..channelinduct import rule_induct
+    res.guard(rule_induct, prog, res)
+    res.require_min("R-INDUCT", 12)
     res.require_min("R-CURSOR-PAIR", 3)
     res.require_min("L-PAIR", 10)
     res.require_min("L-GUARDED", 40)
